@@ -75,6 +75,7 @@ class Interp(ExprMixin, CallMixin, AnyMixin):
         self.depth = 0
         self.frames = []
         self.functions_entered = set()
+        self.contracts_applied = set()
         self.ext_models["typing.TypeVar"] = lambda it_, a, k, n: Ref(z3.Int(fresh_name("typevar")))
         self.ext_models["typing.ParamSpec"] = lambda it_, a, k, n: Ref(z3.Int(fresh_name("paramspec")))
         self.any_tags = {}
